@@ -131,8 +131,16 @@ def check_table_batched(case, ctx):
     check_table(case, ctx, scheme=DECODER)
 
 
+@st.composite
+def large_cases(draw, tier):
+    ds = draw(gen.large_datasets())
+    univ = oracle.universe(ds["rankings"])
+    return {"scheme": draw(gen.any_schemes()), "dataset": ds, "cands": [draw(gen.candidates(univ))]}
+
+
 def subchecks():
     return [
         HypSub("table_random", table_cases, check_table_batched, quick=5000, thorough=80000),
+        HypSub("table_large", large_cases, check_table, quick=300, thorough=4000),
         EnumSub("small_scope", small_datasets, check_small),
     ]
